@@ -84,6 +84,8 @@ def view(I, st, v, tid, depth=0, collapse=True):
     k = t.kind
     if k in ("int", "bool", "char", "float"):
         return v
+    if k == "pat":
+        return view(I, st, v, t.elem, depth + 1, collapse)
     if k in ("ref", "rawptr"):
         pt = I.types[t.elem]
         if pt.kind == "str":
